@@ -13,9 +13,9 @@ UPDATE_METHODS = {"event::CheckResult", "event::SetNextCheck", "event::SetLastCh
                   "event::SetRemovalInfo"}
 
 
-def _load_gen():
-    path = os.path.join(core.ROOT, "gen", "c13_apifunctions.py")
-    spec = importlib.util.spec_from_file_location("c13_apifunctions", path)
+def _load_gen(name="c13_apifunctions"):
+    path = os.path.join(core.ROOT, "gen", name + ".py")
+    spec = importlib.util.spec_from_file_location(name, path)
     mod = importlib.util.module_from_spec(spec)
     spec.loader.exec_module(mod)
     return mod
@@ -112,6 +112,9 @@ NEGATIVE_CONTROLS = [
      "UpdateObject/DeleteObject registrations swapped with a trailing comment, static pki handlers renamed"),
     ("nc5_config_cert_guard_spelling", "config::UpdateObject tests accept_config before the zone, config::DeleteObject zone test as positive if/else, "
      "config::Update and pki::UpdateCertificate guards split into nested ifs / a refuse flag"),
+    ("nc7_zone_level_guard_spelling", "zone.cpp Zone::OnAllConfigLoaded: counter renamed and pre-incremented, bound moved into a file-level constant "
+     "(33, compared with `<=` and operands swapped), a comment that quotes the old comparison — gen/c13_zonelevels.py still reads 32; run "
+     "through tools/mutate.sh: exit 0, no VIOLATION"),
     ("nc6_execute_from_queue", "clusterevents-check.cpp: source endpoint via ternary, guard as !(a && b) with a named bool, accept_commands test "
      "with operands swapped"),
 ]
@@ -131,7 +134,14 @@ class C13(Check):
                          "own_zone_claim_not_entitled_is_refused", "specStep_none_of", "model_step_satisfies_spec",
                          "model_trace_satisfies_spec_partial", "model_trace_counterexample", "refused_observes_nothing",
                          "update_object_needs_accept_config", "delete_object_only_api_package",
-                         "entitled_foreign_update_is_accepted"]
+                         "entitled_foreign_update_is_accepted",
+                         "fuel_covers_source_level_limit", "isChildOf_iff_below_loaded",
+                         "config_update_object_accept_iff_entitled", "config_delete_object_accept_iff_entitled",
+                         "foreign_update_accept_iff_entitled", "sender_strictly_below_is_refused",
+                         "model_step_failure_is_fc13a", "model_trace_failure_is_fc13a",
+                         "entitledB_iff_entitled_loaded", "relayed_update_entitles_first_hop", "exForest_loaded",
+                         "loadedB_sound", "driver_forests_are_loaded", "origin_claim_matters_only_for_own_zone_peer",
+                         "model_origin_satisfies_spec"]
     technique = ("Lean 4 proof (decision logic stated outright over an arbitrary zone forest) about a hand-written decision table with one row "
                  "per registered JSON-RPC method (row set forced by a table regenerated from REGISTER_APIFUNCTION on every run); correspondence "
                  "by driving every registered ApiFunction through the real JsonRpcConnection::MessageHandler on an in-process cluster node "
@@ -149,6 +159,20 @@ class C13(Check):
                   "model's observations (nothing observable for a message that does not apply; connection bookkeeping confined to the sender's own "
                   "Endpoint object), provided no message lies in the class F-C13a; kernel-checked counterexamples for the excluded class on "
                   "message and trace level, reproduced on the real code by the harness (F-C13b/c were found by this check and are repaired). "
+                  "(2b) Whole trace WITHOUT proviso (model_trace_failure_is_fc13a): whatever the predicate reports on ANY model trace is the clause "
+                  "applied_only_if_entitled at an accepted message of the class F-C13a — no other clause, no other class. (3) Completeness, over "
+                  "all forests a configuration can load (every zone at most 32 proper ancestors; the bound is regenerated from "
+                  "Zone::OnAllConfigLoaded on every run and fuel_covers_source_level_limit ties the model's walk to it): the modelled "
+                  "Zone::IsChildOf IS 'the zone or below it' (isChildOf_iff_below_loaded); config::UpdateObject / DeleteObject and state updates "
+                  "from another zone get past their guards IF AND ONLY IF the statement entitles the sender "
+                  "(config_update_object_/config_delete_object_/foreign_update_accept_iff_entitled); configuration, commands, certificate and "
+                  "removal info are never applied for a sender strictly below the receiver (sender_strictly_below_is_refused: 'above' and "
+                  "'below' exclude each other); the executable predicate of the driver is EQUIVALENT to the proposition "
+                  "(entitledB_iff_entitled_loaded). (4) Two hops (relayed_update_entitles_first_hop): an update relayed by an own-zone peer that "
+                  "fills originZone honestly (SyncRelayMessage) is accepted only if the first-hop sender's zone is entitled; the originZone claim has "
+                  "no influence on any method for any sender that is not an authenticated own-zone peer "
+                  "(origin_claim_matters_only_for_own_zone_peer). The hypothesis of (3) is checked by the driver on every forest the harness "
+                  "registers (loadedB; loadedB_sound, driver_forests_are_loaded). "
                   "The decision table is tied to the code by invoking all 28 registered methods through the real MessageHandler for every "
                   "sender/origin/object-zone relation in a 7-zone forest of depth 3 from three receiver positions plus seeded random forests, "
                   "authenticated/unverified/unconfigured/anonymous senders, accept_config/accept_commands on/off, command endpoint = none / sender / "
@@ -157,9 +181,11 @@ class C13(Check):
                   "event::ExecuteCommand (legacy check, API execution with source/deadline, named local endpoint, forwarding incl. both "
                   "error-notice branches), comparing 'anything changed' (all objects serialised, data directory, outgoing queues, "
                   "command/notification counters), 'anything but the sender's Endpoint object changed' and the computed FromZone with the model; "
-                  "the specification (applied_only_if_entitled, anonymous_only_certificate, session_only_own_endpoint) is evaluated on the "
+                  "the specification (applied_only_if_entitled, anonymous_only_certificate, session_only_own_endpoint on the "
+                  "before/after observation; endpoint_only_if_authenticated, judged_by_senders_zone on the MessageOrigin a probe ApiFunction is handed "
+                  "by the real MessageHandler for the same connection and originZone — model_origin_satisfies_spec) is evaluated on the "
                   "implementation's observations")
-    level_note = ("Trusted: Lean kernel (+ propext, Classical.choice, Quot.sound), translator gen/c13_apifunctions.py, harness/driver, the sampled "
+    level_note = ("Trusted: Lean kernel (+ propext, Classical.choice, Quot.sound), translators gen/c13_apifunctions.py and gen/c13_zonelevels.py, harness/driver, the sampled "
                   "correspondence. Certificate verification is an input bit. Modelled as predicates, not as state: what an accepted update does "
                   "to the object is an arbitrary effect (any Obs) in the whole-trace theorem; config::UpdateObject's create/modify/no-op "
                   "decision, DeleteObject's package test and the two error-notice branches of the ExecuteCommand forwarding path are in the "
@@ -170,9 +196,13 @@ class C13(Check):
                   "the specification confines it to the sender's own Endpoint object.")
     trusted_base = [
         "translator gen/c13_apifunctions.py (regex over REGISTER_APIFUNCTION in /repo/lib; a lost anchor is reported as a broken tie)",
+        "translator gen/c13_zonelevels.py (the one counter-versus-integer comparison guarding the throw in Zone::OnAllConfigLoaded, "
+        "lib/remote/zone.cpp, in any spelling; a lost anchor or a bound >= the model's fuel 40 is reported as a broken tie); that this "
+        "guard really rejects deeper or cyclic zone chains (hypothesis `Loaded` of the completeness theorems) is read, not verified",
         "modelled, not verified: TLS certificate verification (`authenticated` is an input bit); every configured endpoint belongs to a zone "
         "(Endpoint::OnAllConfigLoaded enforces it); zone chains of loaded configurations have at most 33 levels (Zone::OnAllConfigLoaded), "
-        "the model's IsChildOf walks with fuel 40 (the theorems hold for every fuel)",
+        "the model's IsChildOf walks with fuel 40 (the soundness theorems hold for every fuel; the completeness theorems for fuel > the "
+        "regenerated bound); honest relaying by own-zone peers is a hypothesis of relayed_update_entitles_first_hop only",
         "the decision table covers the guards in front of each handler's effect and the effect's own no-op conditions (config::UpdateObject "
         "version/exists/config text, config::DeleteObject package, ExecuteCommand forwarding error notices), for well-formed parameters; the "
         "effect itself is an arbitrary observation; both branches of pki::UpdateCertificate sit behind the one modelled guard",
@@ -201,6 +231,14 @@ class C13(Check):
             raise core.TieBroken("translator:C13:apifunctions", str(e))
         if not os.path.exists(out):
             raise core.TieBroken("translator:C13:apifunctions", "generated file missing")
+        gen2 = _load_gen("c13_zonelevels")
+        out2 = os.path.join(core.LEAN, "IcingaProofs", "Gen", "ZoneLevels.lean")
+        try:
+            gen2.generate(core.REPO, out2)
+        except gen2.Lost as e:
+            raise core.TieBroken("translator:C13:zonelevels", str(e))
+        if not os.path.exists(out2):
+            raise core.TieBroken("translator:C13:zonelevels", "generated file missing")
 
     # -- running ---------------------------------------------------------------------------------
     def _harness(self, args, save, append=False):
